@@ -398,6 +398,80 @@ def baseclass_backend_cases(ctx, LOG, d):
     return n
 
 
+NATIVE_SUBCLASS_MODULE = '''
+import vmonbk_log as L
+from mido import ports
+L.LOG.append(('import', __name__))
+class Input(ports.BaseInput):
+    def _open(self, **kwargs):
+        L.LOG.append(('Input', __name__, self.name, dict(kwargs)))
+class Output(ports.BaseOutput):
+    def _open(self, **kwargs):
+        L.LOG.append(('Output', __name__, self.name, dict(kwargs)))
+class IOPort({base}):
+    """The module's own I/O port, written by deriving from one of mido's port classes."""
+    def __init__(self, name=None, **kwargs):
+        L.LOG.append(('IOPort', __name__, name, dict(kwargs)))
+        self.name = name
+        self.closed = False
+        self.opened_with = dict(kwargs)
+    def close(self):
+        self.closed = True
+    def __del__(self):
+        pass
+def get_devices(**kwargs):
+    L.LOG.append(('get_devices', __name__, dict(kwargs)))
+    return [{{'name': 'X', 'is_input': True, 'is_output': True}}]
+'''
+
+
+def native_subclass_cases(ctx, LOG, d):
+    """"open_ioport uses the module's native IOPort when present" - whatever that class derives from: mido's IOPort wrapper,
+    BaseIOPort, BasePort, object.  It is constructed once, with the name, the options and the API; no Input/Output pair."""
+    n = 0
+    saved_env = {k: os.environ.get(k) for k in ENVV}
+    try:
+        for k in ENVV:
+            os.environ.pop(k, None)
+        for bi, base in enumerate(('ports.IOPort', 'ports.BaseIOPort', 'ports.BasePort', 'object', 'ports.BaseInput, ports.BaseOutput')):
+            modname = f'vmonbk_native{bi}'
+            with open(os.path.join(d, modname + '.py'), 'w') as f:
+                f.write(NATIVE_SUBCLASS_MODULE.format(base=base))
+            for api in (None, 'APIX'):
+                for via in ('backend', 'top-level'):
+                    for kw in ({}, {'virtual': True, 'client_name': 'me'}):
+                        case = {'kind': 'native-subclass', 'base': base, 'api': api, 'via': via, 'options': sorted(kw)}
+                        sys.modules.pop(modname, None)
+                        del LOG[:]
+                        try:
+                            import mido
+                            b = Backend(modname + (f'/{api}' if api else ''))
+                            if via == 'top-level':
+                                mido.set_backend(b)
+                            r = (mido if via == 'top-level' else b).open_ioport('P', **kw)
+                            calls = [(e[0], e[2]) for e in LOG if e[0] in ('Input', 'Output', 'IOPort')]
+                            seen = [e[3] for e in LOG if e[0] == 'IOPort']
+                            want_kw = dict(kw, **({'api': api} if api else {}))
+                            ctx.check('native IOPort iff present', calls == [('IOPort', 'P')] and type(r).__module__ == modname,
+                                      'native-ioport-not-used', case, lambda: {'calls': calls, 'returned': type(r).__module__ + '.' + type(r).__name__})
+                            ctx.check('constructor calls == model', len(seen) == 1 and all(seen[0].get(k_) == v_ for k_, v_ in want_kw.items()), 'native-ioport-options', case, lambda: {'got': seen, 'want': want_kw})
+                            r.closed = True
+                        except Exception as exc:
+                            ctx.fail('no exception', f'native-subclass:{type(exc).__name__}', case, f'{type(exc).__name__}: {exc}')
+                        finally:
+                            import mido
+                            mido.set_backend()
+                        n += 1
+            sys.modules.pop(modname, None)
+    finally:
+        for k, v in saved_env.items():
+            if v is None:
+                os.environ.pop(k, None)
+            else:
+                os.environ[k] = v
+    return n
+
+
 def explicit_empty_name_cases(ctx, LOG):
     """An explicit port name beats the environment - also the empty string, which is a name like any other to
     open_input / open_output and to a native IOPort (what a wrapped pair does with it is left open: the code asks
@@ -1010,6 +1084,9 @@ def run(ctx):
                 ctx.nontrivial(None, k)
                 n += k
                 k = baseclass_backend_cases(ctx, LOG, d)
+                ctx.nontrivial(None, k)
+                n += k
+                k = native_subclass_cases(ctx, LOG, d)
                 ctx.nontrivial(None, k)
                 n += k
                 k = odd_name_cases(ctx, LOG)
